@@ -26,6 +26,9 @@ def harnesses(tier):
             scenario_harness("nested", Profile(
                 templates=("N12",), raises="free", crit_job="free", crit_sched="free", perm="id"),
                 o, required_notes=req),
+            scenario_harness("flat3-latencies", Profile(
+                templates=("F3",), raises="free", crit_job=True, lat="free", perm="two", top="pure",
+                edges="none"), o, required_notes=req),
         ]
     return [
         scenario_harness("flat4-window", Profile(
